@@ -34,4 +34,14 @@ prop("C01",
            dict(name="h_ustr", sources=["harness/h_str.c"], profile="asan", wraps=["read"], cflags=["-DUSTR"],
                 args={"quick": ["--L=3", "--sigma=3"], "thorough": ["--L=5", "--sigma=4"]})],
      deadline={"quick": 200, "thorough": 3000})
+
+
+prop("C07",
+     level="model_checking",
+     technique="explicit-state BFS over operation histories on the real mbuff object (replay on fresh object, canonical-key dedup) vs byte-array reference model; deviation-bounded read() schedules for fd/fp constructors",
+     rule=_C01_RULE.replace("str/ustr", "mbuff").replace("I1/I2", "size>=len, allocation>=size"),
+     bounds={"quick": "sigma={0x00,a,space} L=3 fixpoint; fd ctor k=4 dev<=2", "thorough": "sigma={0x00,a,space,0xFF} L=5 fixpoint; fd ctor k=6 dev<=2"},
+     runs=[dict(name="h_mbuff", sources=["harness/h_mbuff.c"], profile="asan", wraps=["read"],
+                args={"quick": ["--L=3", "--sigma=3"], "thorough": ["--L=5", "--sigma=4"]})],
+     deadline={"quick": 200, "thorough": 3000})
 NOT_CLAIMED = {}
